@@ -245,6 +245,8 @@ def classify_engine(run):
         return "LoadReject"
     if kind == "RawDuckDB" and code == "OutOfRangeException" and "Overflow" in msg:
         return "Overflow"
+    if kind == "Runtime" and code == "2-1-1-1" and "Overflow" in msg:
+        return "OverflowVTL"   # the DuckDB overflow surfaced as the catalogued VTL runtime error
     return ("Other", kind, code)
 
 
@@ -344,6 +346,9 @@ def run(ctx):
             p.steps.append({"ew": ew, "es": es, "path": rng.choice(("df", "csv")), "max_singles": 1 if quick else 3})
         plans.append(p)
 
+    if os.environ.get("VERIF_C30_EVERY"):   # development aid: keep the corpus and every n-th plan
+        n_ = int(os.environ["VERIF_C30_EVERY"])
+        plans = [p for i, p in enumerate(plans) if p.name.startswith("corpus:") or i % n_ == 0]
     # ------------------------------------------------------------------ model: configuration outcome of every step
     seq_exprs = [f"run_sequence engine_config D0 {coq_list([f'({oz(st['ew'])}, {oz(st['es'])})' for st in p.steps])}" for p in plans]
     outs = coq_eval(HEADER, seq_exprs, "c30seq", shard=60)
@@ -455,7 +460,14 @@ def run(ctx):
     jobs = [job_for(pi, p) for pi, p in enumerate(plans)]
     with ThreadPoolExecutor(max_workers=common.NCPU) as ex:
         results = list(ex.map(lambda j: spawn(j, timeout=900), jobs))
-    ctx.log("K: engine runs done")
+    transient = ("AttributeError", "ImportError", "ModuleNotFoundError", "SyntaxError", "NameError", "IndentationError")
+    redone = 0
+    for i, res in enumerate(results):
+        if any((not er["ok"]) and er["err"][0] == "RawPython" and er["err"][1] in transient for sres in res for er in sres["runs"]):
+            results[i] = spawn(jobs[i], timeout=900)   # /repo was being rewritten by a concurrent job while the worker imported it
+            redone += 1
+    ctx.cov["plans_rerun_after_import_level_error"] = redone
+    ctx.log(f"K: engine runs done ({redone} plans re-run after an import-level error)")
 
     # ------------------------------------------------------------------ compare
     mismatches = []
@@ -551,8 +563,8 @@ def run(ctx):
                                      {"steps": [{"env": {k: v for k, v in ((WVAR, st['ew']), (SVAR, st['es'])) if v is not None},
                                                  "runs": [{"rows": [[ci, ra, rb]], "ops": [op], "path": r["path"]}]}],
                                       "expected": "a VTL error (RunTimeError) or the exact sum", "observed": er["err"]})
-                            elif ecls != "OK" and not (isinstance(ecls, tuple) and ecls[0] == "Other" and ecls[1] in ("Runtime", "Semantic")):
-                                mismatches.append((p.name, si, envd, f"{ra} {op} {rb}: model overflow, engine {ecls}"))
+                            elif ecls not in ("OK", "OverflowVTL"):
+                                mismatches.append((p.name, si, envd, f"{ra} {op} {rb}: model overflow, engine {ecls} {er.get('msg', '')[:120]}"))
                             elif ecls == "OK":
                                 mismatches.append((p.name, si, envd, f"{ra} {op} {rb}: model overflow, engine returned {er['vals']}"))
                         else:
@@ -562,13 +574,19 @@ def run(ctx):
                 if er["globals"] != st["model_state"]:
                     mismatches.append((p.name, si, envd, f"module globals after the run {er['globals']}, model {st['model_state']}"))
             # ---------------- the property itself on the engine's behaviour (independent of the faithful model)
+            # configuration-level class of the step: every run() of the step meets the same configuration
             ecl = None
-            for er in sres["runs"][:1]:
-                ecl = classify_engine(er)
+            classes = [classify_engine(er) for er in sres["runs"]]
+            for c_ in classes:
+                if c_ == "RawBinder" or (isinstance(c_, tuple) and c_[0] in ("CfgRejected", "Other")):
+                    ecl = c_
+                    break
+            if ecl is None and classes:
+                ecl = "OK"
             key_env = (st["ew"], st["es"])
             documented = in_doc(WVAR, st["ew"]) and in_doc(SVAR, st["es"])
             if p.fresh and si == 0:
-                fresh_outcome[key_env] = ecl if not (ecl in ("OK", "LoadReject", "Overflow")) else "ACCEPTED"
+                fresh_outcome[key_env] = ecl if not (ecl in ("OK", "LoadReject", "Overflow", "OverflowVTL")) else "ACCEPTED"
                 rep_steps = [{"env": {k: v for k, v in ((WVAR, st['ew']), (SVAR, st['es'])) if v is not None},
                               "runs": [{"rows": [[0, "1.5", "2.25"]], "ops": ["+"], "path": "df"}]}]
                 if not documented and not (isinstance(ecl, tuple) and ecl[0] == "CfgRejected"):
@@ -587,7 +605,7 @@ def run(ctx):
                                f"run() fails with {ecl}: {sres['runs'][0].get('msg', '')[:110]} — neither the documented configuration error nor a result",
                          {"steps": rep_steps, "expected": "accepted, or RunTimeError 0-4-1-1", "observed": str(ecl)})
             if not p.fresh:
-                st["engine_class"] = ecl if not (ecl in ("OK", "LoadReject", "Overflow")) else "ACCEPTED"
+                st["engine_class"] = ecl if not (ecl in ("OK", "LoadReject", "Overflow", "OverflowVTL")) else "ACCEPTED"
                 sp = st["spec"]
                 if (mcls == "CfgOk" and isinstance(sp, tuple) and sp[0] == "CfgOk" and tuple(sp[1:]) != tuple(m[1:]) and st["engine_class"] == "ACCEPTED"
                         and sres["runs"] and sres["runs"][-1]["globals"] == [m[1], m[2]] and not any(x[0] == p.name and x[1] == si for x in mismatches)):
